@@ -51,14 +51,18 @@ theorem get_setPaymentInStore {s : Store} (hinv : PayInvF s.get) (p : Payment) (
       · simp [ht, get_set]
       · simp only [ne_eq, ht, not_false_eq_true, ↓reduceIte, get_set, true_and]
         split_ifs <;> simp_all [idxTargetToPayment, keyPayment]
-    · by_cases hsame : ex.target = p.target
-      · have ht : p.target ≠ [] := hsame ▸ hxt
-        simp only [hxt, ↓reduceIte, hsame, ne_eq, ht, not_false_eq_true, get_set, true_and]
+    · by_cases hsame : ex.target = p.target ∧ ex.targetUp = p.targetUp
+      · have ht : p.target ≠ [] := hsame.1 ▸ hxt
+        rw [if_neg hxt, if_pos hsame]
+        simp only [ne_eq, ht, not_false_eq_true, ↓reduceIte, get_set, true_and, hsame.1]
         have hidx := hinv.pay_indexed ex (by rw [hs, he]; exact hrec) _ (mem_paymentIndexEntries.mpr ⟨hxt, rfl⟩)
-        rw [hs, he, hsame] at hidx
+        rw [hs, he, hsame.1] at hidx
         simp only at hidx
         split_ifs <;> simp_all [idxTargetToPayment, keyPayment]
-      · simp only [hxt, ↓reduceIte, hsame, ne_eq, not_false_eq_true, true_and, hs, he]
+      · -- a different target STRING: another account, or the same account re-spelled (then the entry
+        -- deleted and the entry written are the same key, and it is written last)
+        rw [if_neg hxt, if_neg hsame]
+        simp only [ne_eq, not_false_eq_true, true_and, hs, he, hxt]
         by_cases ht : p.target = []
         · simp only [ht, ne_eq, not_true_eq_false, ↓reduceIte, get_del, get_set, false_and]
           split_ifs <;> simp_all [idxTargetToPayment, keyPayment]
@@ -174,8 +178,8 @@ theorem pay_updatePaymentTarget {s s' : Store} {src e t : Bytes} (hinv : PayInvF
     cases h
     exact ⟨payInv_setPaymentInStore hinv _, touches_setPaymentInStore hinv _⟩
 
-theorem pay_acceptPayment {s s' : Store} {src e t : Bytes} (hinv : PayInvF s.get)
-    (h : acceptPayment s src e t = some s') : PayInvF s'.get ∧ Touches s s' payHeads := by
+theorem pay_acceptPayment {s s' : Store} {src e t : Bytes} {su tu : Bool} (hinv : PayInvF s.get)
+    (h : acceptPayment s src e t su tu = some s') : PayInvF s'.get ∧ Touches s s' payHeads := by
   unfold acceptPayment at h
   split_ifs at h
   split at h
@@ -214,7 +218,7 @@ theorem pay_cancelPayments {s s' : Store} {src : Bytes} {es : List Bytes} (hinv 
     obtain ⟨hs, he⟩ := hinv.record_key hrec
     rw [hs, he]; exact hrec
 
-theorem pay_rejectPayments {s s' : Store} {t : Bytes} {srcs : List Bytes} (hinv : PayInvF s.get)
+theorem pay_rejectPayments {s s' : Store} {t : Bytes} {srcs : List (Bytes × Bool)} (hinv : PayInvF s.get)
     (h : rejectPayments s t srcs = some s') : PayInvF s'.get ∧ Touches s s' payHeads := by
   unfold rejectPayments at h
   dsimp only at h
